@@ -561,9 +561,9 @@ func runScenario(s *bScript, tr int, slow int) *trace.Log {
 		}
 	}
 	// settle with the connections still up
-	log.WaitIdle(time.Duration(25*slow)*time.Millisecond, 8*time.Second)
+	log.WaitIdle(time.Duration(40*slow)*time.Millisecond, 8*time.Second)
 	be.Wait()
-	log.WaitIdle(time.Duration(25*slow)*time.Millisecond, 8*time.Second)
+	log.WaitIdle(time.Duration(40*slow)*time.Millisecond, 8*time.Second)
 	log.Add("settle")
 	// end: close everything and let the broker clean up
 	for _, p := range sc.peers {
